@@ -145,6 +145,16 @@ func RandomTemplate(t *rapid.T, name string, nodeNames []string) corev1.PodTempl
 	if rapid.IntRange(0, 2).Draw(t, name+"-has-labels") == 0 {
 		tpl.Labels = map[string]string{"app": rapid.SampledFrom([]string{"agent", "x"}).Draw(t, name+"-app")}
 	}
+	// now and then the template carries keys the controller reserves for itself (metadata of a running pod
+	// pasted back into the template): the controller's own values must win
+	if rapid.IntRange(0, 4).Draw(t, name+"-reserved") == 0 {
+		if tpl.Labels == nil {
+			tpl.Labels = map[string]string{}
+		}
+		tpl.Labels["extendeddaemonset.datadoghq.com/name"] = "bar"
+		tpl.Labels["extendeddaemonsetreplicaset.datadoghq.com/name"] = "bar-stale"
+		tpl.Annotations = map[string]string{"extendeddaemonset.datadoghq.com/templatehash": "stale-hash", "note": "x"}
+	}
 	if rapid.IntRange(0, 2).Draw(t, name+"-has-sel") == 0 {
 		tpl.Spec.NodeSelector = map[string]string{rapid.SampledFrom(LabelKeys).Draw(t, name+"-selk"): rapid.SampledFrom(LabelVals).Draw(t, name+"-selv")}
 	}
@@ -178,7 +188,11 @@ func LetterTemplate(letter byte) corev1.PodTemplateSpec {
 		tpl.Labels["rev"] = "b"
 		tpl.Annotations = map[string]string{"checksum/config": "b1"}
 	case 'C':
-		tpl.Annotations = map[string]string{"checksum/config": "c1", "note": "c"}
+		// this template also carries keys the controller reserves for itself (as happens when a running pod's
+		// metadata is pasted back into the template): the controller's own values must win on the pods it creates
+		tpl.Labels["extendeddaemonset.datadoghq.com/name"] = "bar"
+		tpl.Labels["extendeddaemonsetreplicaset.datadoghq.com/name"] = "bar-stale"
+		tpl.Annotations = map[string]string{"checksum/config": "c1", "note": "c", "extendeddaemonset.datadoghq.com/templatehash": "stale-hash"}
 		tpl.Spec.Containers[0].Env = []corev1.EnvVar{{Name: "X", Value: "1"}}
 		tpl.Spec.Containers = append(tpl.Spec.Containers, corev1.Container{Name: "side", Image: "side:1"})
 	case 'D':
@@ -190,6 +204,12 @@ func LetterTemplate(letter byte) corev1.PodTemplateSpec {
 		}}}}
 	case 'F':
 		tpl.Spec.Tolerations = []corev1.Toleration{{Key: "dedicated", Operator: corev1.TolerationOpExists}}
+	case 'H':
+		// the template itself carries a matchFields requirement on the node name (an exclusion): pods bound by
+		// spec.nodeName keep it, pods pinned by affinity get it replaced by the controller
+		tpl.Spec.Affinity = &corev1.Affinity{NodeAffinity: &corev1.NodeAffinity{RequiredDuringSchedulingIgnoredDuringExecution: &corev1.NodeSelector{NodeSelectorTerms: []corev1.NodeSelectorTerm{
+			{MatchFields: []corev1.NodeSelectorRequirement{{Key: "metadata.name", Operator: corev1.NodeSelectorOpNotIn, Values: []string{"n2"}}}},
+		}}}}
 	case 'G':
 		tpl.Spec.Affinity = &corev1.Affinity{NodeAffinity: &corev1.NodeAffinity{RequiredDuringSchedulingIgnoredDuringExecution: &corev1.NodeSelector{NodeSelectorTerms: []corev1.NodeSelectorTerm{
 			{MatchExpressions: []corev1.NodeSelectorRequirement{{Key: "zone", Operator: corev1.NodeSelectorOpNotIn, Values: []string{"c"}}}},
